@@ -186,8 +186,9 @@ def units(ctx):
           core.Unit('sigflow:templates', templates_unit, 'sigflow')]
     us += [contract_unit(c, world_setup=yaqlized.setup_validate)
            for c in yaqlized.contracts()]
-    us += [contract_unit(c, world_setup=yaqlized.setup_sinks)
-           for c in yaqlized.sink_contracts()]
+    us += [contract_unit(c, world_setup=(
+        yaqlized.setup_sinks_opdot if c.short.endswith('op_dot')
+        else yaqlized.setup_sinks)) for c in yaqlized.sink_contracts()]
     us += [contract_unit(c, world_setup=yaqlized.setup_settings)
            for c in yaqlized.settings_contracts()]
     from props._common import bounded_unit
